@@ -51,6 +51,7 @@ def run(prog: Program, rep: Report, tier: str) -> None:
     sign_summary_premise(prog, rep)
     rep.rule("R3.1", "on every path the first frame is the login frame, it is written exactly once, and it precedes every command frame; every write is followed by a read before the next write", 12)
     rep.rule("R3.2", "session and timestamp of every command frame come from *this invocation's* login: session = bytes 8..12 of the reply read right after the login write, timestamp = the clock value sent in that login frame; the clock helper is not memoised", 14)
+    rep.claims_instance_state = "R3.3"       # a class-level container mutated through instances is state shared by all clients
     rep.rule("R3.3", "no shared or lingering state: the only attribute stores of the API classes are the 7 instance attributes in __init__/connect/disconnect; no global/nonlocal, no cache decorator, no store on a module/class/other object, no mutated mutable default or module-level container in the api/tools modules", 10)
     rep.rule("R3.4", "login flavour: type-1 operations send the login-key frame, type-2 operations the device-id frame; _login selects the type-2 frame exactly for the DeviceType members with protocol_type == 2", 12 + 10)
     rep.rule("R3.6", "each reply is consumed whole: every reader.read(n) on an operation's path asks for a constant n >= the longest reply of the protocol (spec/reply_layout.json whole_reply_read), so no bytes of one reply are left in the stream to be taken for the next operation's login reply (and its session id)", 12)
